@@ -93,7 +93,8 @@ Cleanup ==
 
 (* ---------------------------------------------------------------- decode: start *)
 HasPic == Has("pic") /\ ~Has("opaque")      \* "opaque": the bytes are not claimed to be a valid picture
-P == E.pic
+PFull == E.pic
+P == Effective(PFull)       \* standard-mode error concealment, see Picture!Concealed
 D == Dims(P)
 (* the picture's bytes start at the next byte boundary of the stream *)
 PicStart == IF Has("pre") THEN 8 * CeilDiv(pos, 8) ELSE 8 * Len(src)
@@ -155,7 +156,7 @@ DecodeStart ==
        THEN \* the stream position was lost by an earlier (reported) disagreement: nothing can be said about this call
             UNCHANGED <<pos, posKnown>> /\ KeepDecoder /\ NextLine
        ELSE IF ~WellFormed(P) THEN Diag("HARNESS", "abstract-picture-ill-formed", "harness", P.tr) /\ UNCHANGED <<pos, posKnown>> /\ KeepDecoder /\ NextLine
-       ELSE IF BytesOfBits(PaddedBits(P)) # E.bytes \/ ~BytesInPlace
+       ELSE IF BytesOfBits(PaddedBits(PFull)) # E.bytes \/ ~BytesInPlace
        THEN Diag("HARNESS", "bytes-are-not-the-encoding-of-the-abstract-picture", "harness", [tr |-> P.tr]) /\ UNCHANGED <<pos, posKnown>> /\ KeepDecoder /\ NextLine
        ELSE IF ~ExpectOk
        THEN \* a picture needing prediction without a (matching) reference must be rejected
